@@ -242,6 +242,10 @@ func installUniverse() {
 	mk("mathmod", []types.Type{intT, intT}, intT, false)
 	mk("pure", []types.Type{anyT}, anyT, false)
 	mk("b2i", []types.Type{boolT}, intT, false)
+	mk("sameRef", []types.Type{anyT, anyT}, boolT, false)
+	mk("visited", []types.Type{anyT}, boolT, false)
+	mk("hasPrefix", []types.Type{anyT, anyT}, boolT, false)
+	mk("lexLess", []types.Type{anyT, anyT}, boolT, false)
 	mk("ghostu64", []types.Type{types.Typ[types.String], types.NewSlice(anyT)}, types.Typ[types.Uint64], true)
 	mk("ghosts", []types.Type{types.Typ[types.String], types.NewSlice(anyT)}, types.Typ[types.String], true)
 	mk("sbyteAt", []types.Type{anyT, intT}, types.Typ[types.Byte], false)
